@@ -313,6 +313,11 @@ func runC01(c *Ctx) {
 		a.StdOracle = ok && !a.Syn
 	})
 	runC01History(c)
+	// the same, end to end: pod reviews as an API server sends them (also one newer than this build: fields it does not know,
+	// a repeated key) through the webhook handler; verdict, status and enforce-policy annotation must be the library's for
+	// the typed pod
+	ns, newAdm := webhookFixture()
+	webhookMixed(c, sizes(c, 400, 8000), "pod", ns, newAdm)
 }
 
 // mutable cluster: namespaces are relabelled between requests, as an administrator would (metadata.generation does not
@@ -481,6 +486,7 @@ func runC07(c *Ctx) {
 			a.ExpireAfter = r.Intn(len(a.Pods) + 1)
 		}
 	})
+	runRealListerFaults(c)
 }
 
 func c07Oracle(c *Ctx) func(a *AdmitCase, g AdmitOut) {
@@ -586,6 +592,12 @@ func c07Oracle(c *Ctx) func(a *AdmitCase, g AdmitOut) {
 // ---------------------------------------------------------------- C08
 
 func runC08(c *Ctx) {
+	// end to end: mixed reviews (pods and controllers, with and without subresources, many in flight, one after another on
+	// kept-alive connections) through the webhook handler; warnings and audit annotations must be the library's
+	{
+		ns, newAdm := webhookFixture()
+		webhookMixed(c, sizes(c, 480, 8000), "", ns, newAdm)
+	}
 	n := sizes(c, 4000, 80000)
 	k := AdmitKnobs{FaultPct: 0, SynPct: 50, SubPct: 5}
 	r2 := NewRng(c.Seed + 77)
@@ -1033,6 +1045,7 @@ func sortStrings(s []string) {
 
 func runC12(c *Ctx) {
 	runC12Webhook(c)
+	runC12ListTime(c)
 	runRealListerHistory(c)
 	n := sizes(c, 1500, 20000)
 	k := AdmitKnobs{Kind: "ns", FaultPct: 0, SynPct: 85, SubPct: 0, Pods: popGen(12, true)}
